@@ -13,7 +13,7 @@ from harness.pool import Pool
 
 def run(ctx) -> None:
     mp = 2 if ctx.quick else 3
-    ctx.rule = (f"cases = every preamble of <= {mp} of 16 item kinds x 10 fault kinds x 2 indentations x 3 tails x main/included, through the string API and (sampled) Program.assemble; "
+    ctx.rule = (f"cases = every preamble of <= {mp} of 17 item kinds x 10 fault kinds x 2 indentations x 3 tails x main/included, through the string API and (sampled) Program.assemble; "
                 "non-trivial = distinct cases")
     ctx.trusted = ["TLC 1.8", "spec/ErrLoc.tla", "tolerant file:line[:col] extraction (regex) in harness/drivers.py"]
     ctx.assumptions = ["zero-based lines and columns as the statement says; any file:line[:col] occurrence with the right numbers counts"]
